@@ -3,13 +3,13 @@
 # /repo and the quick check of the properties it concerns is run against it (PCFG_REPO); the last line of
 # each run goes to RESULTS.txt.  m* must end in VIOLATION, h* in OK.  About 30 s per run.
 #   sh docs/tie_tests/T14/run_all.sh [name-prefix ...]
-V=/tmp/vb_T14
-SC=/tmp/sc_T14_all
-OUT=/tmp/sc_T14_out
+V=${V:-$(cd "$(dirname "$0")/../../.." && pwd)}
+SC=/tmp/sc_R14_all
+OUT=/tmp/sc_R14_out
 D=$V/docs/tie_tests/T14
 props_of() {
   case $1 in
-    m01*|m05*|m09*|m10*|m12*|m15*) echo "C06 C07";;
+    m01*|m05*|m09*|m10*|m12*|m15*|m21*|m23*|h7*) echo "C06 C07";;
     m06*|m17*|m18*|m19*|m20*|h2*|h5*) echo "C07";;
     *) echo "C06";;
   esac
@@ -23,10 +23,10 @@ for diff in $D/*.diff; do
   if [ $# -gt 0 ]; then ok=0; for p in "$@"; do case $name in $p*) ok=1;; esac; done; [ $ok = 1 ] || continue; fi
   git -C $SC checkout -q -- . && (cd $SC && patch -p1 --binary -s < $diff) || { echo "$name: patch failed" | tee -a $RES; continue; }
   for prop in $(props_of $name); do
-    cd $V && rm -rf $OUT && PCFG_REPO=$SC PCFG_OUT=$OUT ./check $prop --tier quick > /tmp/sc_T14_run.log 2>&1
-    last=$(tail -1 /tmp/sc_T14_run.log)
-    why=$(grep -m1 -E "^VIOLATION|KNOWN" /tmp/sc_T14_run.log | cut -c1-160)
-    det=$(grep -m1 -E "no longer checks|what:" /tmp/sc_T14_run.log | cut -c1-300)
+    cd $V && rm -rf $OUT && PCFG_REPO=$SC PCFG_OUT=$OUT ./check $prop --tier quick > /tmp/sc_R14_run.log 2>&1
+    last=$(tail -1 /tmp/sc_R14_run.log)
+    why=$(grep -m1 -E "^VIOLATION|KNOWN" /tmp/sc_R14_run.log | cut -c1-160)
+    det=$(grep -m1 -E "no longer checks|what:" /tmp/sc_R14_run.log | cut -c1-300)
     echo "$name [$prop]: $last | $why | $det" | tee -a $RES
   done
 done
